@@ -136,6 +136,16 @@ reg("C12",
     "generic-context Send/Output probes + runtime trace oracles + recorder + compile probes", "DESIGN.md §4 C12")
 
 
+reg("C13",
+    "Exploration, exhaustive over requested x item visibilities x input kinds (incl. delegation-target traits): a glob-import "
+    "probe evaluated at run time from 7 observation points (defining scope, child, parent, sibling, case root, another module, a "
+    "second crate) reports from where each generated trait can be named; compared with a 10-line model of Rust's visibility rules; "
+    "the recorder shows the visibility tokens on the emitted traits and the module re-export; the thorough tier cross-checks the probe "
+    "with plain `use` items (must compile where visible, E0603/E0432 at the probe line where not).",
+    "Nesting depth fixed at 3; the always-pub selector trait is logged, not judged (the statement speaks about the delegation-target trait).",
+    "exhaustive enumeration + run-time name-visibility probes vs visibility model + recorder", "DESIGN.md §4 C13")
+
+
 def manifest():
     hooks_commits = subprocess.run(["git", "-C", "/repo", "log", "--format=%H", "--grep=^verif hook"],
                                    stdout=subprocess.PIPE, text=True).stdout.split()
